@@ -91,6 +91,22 @@ PROPS = {
         note="peak-allocation bound is 8*D+8 blocks (node + container + key per level, with slack)",
         assumptions=COMMON_ASSUMPTIONS,
     ),
+    "C10": dict(
+        level="model_checking",
+        runs=[dict(harness="c10", variant="san", shards=8)],
+        deadline=dict(quick=240, thorough=900),
+        rule="node kinds x boundary lattices (int64/uint64 around 0, 2^31, 2^32, 2^53, 2^63, 2^64; doubles b+{-1.5..1.5} and neighbours around the same bounds, "
+             "subnormals, infinities, NaN) x 5 accessors; every string over {space,tab,-,+,0,1,9,.,e,x} up to the length bound plus decimal spellings of the lattice; "
+             "one int node under set_int64/set_uint64/set_int/int_inc: all (value, operation) pairs and BFS over reachable values merged on the exact value; "
+             "non-trivial = distinct case description",
+        bound=dict(quick="strings <= 4 bytes; mutation depth 3", thorough="strings <= 5 bytes; mutation depth 4"),
+        states_stat="cases", transitions_stat="calls",
+        technique="exhaustive enumeration of boundary lattices and explicit-state search of an integer node on the real accessors (UBSan build), exact 128-bit integer reference",
+        claim="each accessor result was compared with an exact-integer / exact-double-comparison reference for every lattice point and every short string; every set/inc history "
+              "to the depth bound was checked step by step; float-cast-overflow and signed overflow abort under UBSan and are attributed to the value",
+        note="errno is compared only where the statement/header fix it; double->string->double uses glibc strtod on both sides",
+        assumptions=COMMON_ASSUMPTIONS,
+    ),
 }
 
 NOT_APPLICABLE = {}
